@@ -76,6 +76,7 @@ type TypeSpec struct {
 	Inv  *Clause
 	Num  *Clause
 	Int  *Clause // integer part (truncated toward zero); defaults to Num
+	Attrs map[string]*Clause // ghost attributes of the type's values (typeattr)
 }
 
 type ContractSet struct {
@@ -491,6 +492,35 @@ func (cs *ContractSet) parseLines(lines []string, file, pkgPath, schemaDir strin
 				ts.Int = &cl
 			default:
 				ts.Num = &cl
+			}
+			cur = nil
+			continue
+		case "typeattr":
+			// typeattr T: name=expr, name=expr ...: ghost attributes of every value of type T (ghostof(x, "name"))
+			rest := strings.TrimSpace(strings.TrimPrefix(l, fields[0]))
+			c := strings.Index(rest, ":")
+			if c < 0 {
+				return fmt.Errorf("%s: typeattr needs 'T: name=expr, ...'", where)
+			}
+			tn := qualifyType(strings.TrimSpace(rest[:c]), pkgPath)
+			ts := cs.Types[tn]
+			if ts == nil {
+				ts = &TypeSpec{Name: tn}
+				cs.Types[tn] = ts
+			}
+			if ts.Attrs == nil {
+				ts.Attrs = map[string]*Clause{}
+			}
+			for _, kv := range splitTop(rest[c+1:], ",") {
+				eq := strings.Index(kv, "=")
+				if eq < 0 {
+					return fmt.Errorf("%s: typeattr entry %q needs name=expr", where, kv)
+				}
+				cl, err := mkClause("", kv[eq+1:])
+				if err != nil {
+					return fmt.Errorf("%s: %v", where, err)
+				}
+				ts.Attrs[strings.TrimSpace(kv[:eq])] = &cl
 			}
 			cur = nil
 			continue
